@@ -192,7 +192,9 @@ def windows(ctx, prog):
         rows = [Row([lt(L, N)], none, name="fewer than size elements left"),
                 Row([le(N, L)], some_item_state(lambda t, case, it=it: view_is(t, S, L, it[0], it[1], case) and "item " + view_is(t, S, L, it[0], it[1], case),
                                                 state_fields({0: lambda t, case, r=rest: view_is(t, S, L, r[0], r[1], case), 1: unchanged(1)})), name="window available")]
-        decide(ctx, prog, "Windows::" + m, b, rows, extra=[le(Int(1), N)])
+        # (the expected offset is made a point of the order type, so that any spelling of it - `len - size`, `len.saturating_sub(size)`
+        #  under the row's guard - is identified with it by value)
+        decide(ctx, prog, "Windows::" + m, b, rows, extra=[le(Int(1), N), le(it[0], it[0])])
 
 
 def opt_nonempty(S, L, off, cnt):
